@@ -44,6 +44,16 @@ CLAIMED = {
         note="Trusted: Lean kernel, harness. Operations are applied through the public Rust API in-process.",
         design="DESIGN.md section 7 C12",
         technique="Lean 4 proof (invariants of the container model) + per-operation model/implementation correspondence + invariant oracle"),
+    "C16": dict(
+        text="Lean ExportModel (scenes, run-length L5 config, integer parts of the summary) compared with the real export/info output; direct oracles on the real CLI for every generated list: export-all element i = info -f i, scenes = indices with flag 1, the exported L5 config replayed through the real editor on the same and on another same-length list restores every frame's L5, every summary figure equals the value recomputed from the per-frame JSON. Lean theorems: every listed scene index carries flag 1; the scene list is strictly ascending.",
+        note="Partial: the nits strings are recomputed with IEEE doubles (same libm), not proved; the replay theorem over the editor model is stated in DESIGN.md and checked by correspondence.",
+        design="DESIGN.md section 7 C16",
+        technique="Lean 4 proof over the export model + CLI/model correspondence + direct oracles (replay through the editor)"),
+    "C17": dict(
+        text="Lean theorems: inserting map entries with different keys commutes, hence the key-ordered map (and with it the scene-cut and active-area passes of the editor model) is the same for every permutation of the config's entries (asMap_perm, sceneCuts_order_independent, activeArea_order_independent). Runtime part: every command is executed in 8/16 fresh processes with varied HOME, locale, cwd, RUST_BACKTRACE, font configuration, time zone; output hashes and exit status must coincide.",
+        note="Partial: process-level nondeterminism (hash seeds, environment) is sampled by repeated execution, not proved; plot contributes its exit status only.",
+        design="DESIGN.md section 7 C17",
+        technique="Lean 4 proof (permutation invariance of the editor model) + repeated fresh-process execution"),
     "C08": dict(
         text="Every parsing entry point (raw RPU, UNSPEC62 NAL, AV1 T.35 OBU, ST 2094-10 SEI, RPU .bin file, C API wrappers) is run on mutated, truncated, extreme-valued and random inputs under an address-space limit and time limits; the outcome class must be ok|err and must equal the class predicted by the executable Lean model (which marks third-party panic sites explicitly) for the modelled entry points; Lean theorems state the guards of the model (short buffers are errors, bit reader never panics).",
         note="Partial: time and memory are runtime facts observed under limits, not proved; ST 2094-10 and the file reader are exercised by direct oracle only; third-party exp-Golomb panics are known findings matched by panic site.",
